@@ -162,3 +162,121 @@ def t_change_target(E):
         E.method(tgt, "filter_to_unconstrained", some),
         UVal(T.chm_filter_sel(some.t, T.sel_not(T.chm_sel(c.t))), "ChoiceMap")))
     E.refutable("smc.change_target", E.eq(pc.fields["log_weights"].at(z3.IntVal(0)), SReal(wf_(0))))
+
+
+@task("smc.sp_interface", props=["C26", "C04"], functions=FUNCS + [
+    SMC + ":SMCAlgorithm.random_weighted", SMC + ":SMCAlgorithm.estimate_logpdf", SMC + ":ParticleCollection.sample_particle"])
+def t_sp_interface(E):
+    """SMCAlgorithm.random_weighted / estimate_logpdf (the SampleDistribution face of an SMC algorithm), for an arbitrary
+    algorithm `prev` (abstract run_smc / run_csmc, K particles, its own final target) and a target handed in at the call whose
+    constraint is ANOTHER choice map than the algorithm's:  the algorithm is re-targeted (ChangeTarget), one particle is drawn
+    with probability proportional to its weight, the density estimate is  particle score - log evidence estimate, and the
+    returned choices are the particle's choices that the GIVEN target leaves unconstrained."""
+    z3, T = E.z3, E.I.T
+    R = z3.RealSort()
+    tgt, g, args, c = target_(E)
+    old_tgt = E.new(SP + ":Target", p=G(E, "p_old"), args=E.opaque("old_args", "tuple"), constraint=chm(E, "old_constraint"))
+    K = E.int("K", conc=True)
+    E.assume(K.t >= 1)
+    split = E.ctx.fn("split", U, z3.IntSort(), z3.IntSort(), U)
+    pf = E.ctx.fn("prev_particle", U, z3.IntSort(), U)                 # (the key run_smc was given, i)
+    wf_ = E.ctx.fn("prev_logw", U, z3.IntSort(), R)
+    cf = E.ctx.fn("prev_csmc_particle", U, U, z3.IntSort(), U)         # (key, retained, i)
+    cw = E.ctx.fn("prev_csmc_logw", U, U, z3.IntSort(), R)
+    runs = []
+
+    def coll(particle, weight):
+        return E.new(SMC + ":ParticleCollection", particles=Stacked(K.t, lambda i: UVal(particle(i), "Trace")),
+                     log_weights=Stacked(K.t, lambda i: SReal(weight(i))), is_valid=SBool(True, False))
+
+    def run_smc(I, s, key_):
+        kt = I.to_u(key_)
+        runs.append(("smc", kt))
+        return coll(lambda i: pf(kt, i), lambda i: wf_(kt, i))
+
+    def run_csmc(I, s, key_, retained):
+        kt, rt = I.to_u(key_), I.to_u(retained)
+        runs.append(("csmc", kt, rt))
+        return coll(lambda i: cf(kt, rt, i), lambda i: cw(kt, rt, i))
+    am = E.I.abstract_methods
+    am[("SMCAlgorithm", "run_smc")] = run_smc
+    am[("SMCAlgorithm", "run_csmc")] = run_csmc
+    am[("SMCAlgorithm", "get_num_particles")] = lambda I, s: K
+    am[("SMCAlgorithm", "get_final_target")] = lambda I, s: old_tgt
+    # the categorical draw of sample_particle: an index in range, a function of (key, logits) (A10)
+    cat_idx = E.ctx.fn("categorical_draw", U, U, z3.IntSort())
+    draws = []
+
+    def cat_rw(I, d, key_, logits):
+        kt, lt = I.to_u(key_), I.to_u(logits)
+        i = cat_idx(kt, lt)
+        E.assume(z3.And(i >= 0, i < K.t))
+        draws.append((kt, logits))
+        return (SReal(E.ctx.fn("categorical_logp", U, U, R)(kt, lt)), SInt(i, False))
+    cat = E.opaque("categorical", "Distribution")
+    am[("Distribution", "random_weighted")] = cat_rw
+    E.I.module_cache[(SMC, "categorical")] = cat
+    # an opaque instance of SMCAlgorithm: abstract methods by the contracts above, the inherited concrete ones are the real code
+    E.I.abstract_classes = dict(E.I.abstract_classes, SMCAlgorithm=SMC + ":SMCAlgorithm")
+    prev = E.opaque("prev", "SMCAlgorithm")
+    k = key(E)
+    lse = E.ctx.fn("logsumexp", U, R)
+    log = E.ctx.fn("log", R, R)
+    lse_args = []
+    real_lse = E.I.ext["jax.scipy.special.logsumexp"]
+
+    def recording_lse(I, x, *a, **kw):
+        lse_args.append(x)
+        return real_lse(I, x, *a, **kw)
+    E.I.ext["jax.scipy.special.logsumexp"] = recording_lse
+    for what in ("random_weighted", "estimate_logpdf"):
+        del runs[:], draws[:], lse_args[:]
+        v = chm(E, "v")
+        call = (lambda: E.method(prev, "random_weighted", k, tgt)) if what == "random_weighted" else \
+               (lambda: E.method(prev, "estimate_logpdf", k, v, tgt))
+        st, res = E.attempt(call)
+        E.require(f"C26.SMCAlgorithm.{what}.does_not_raise", st == "ok", raised=str(res))
+        E.require(f"C26.SMCAlgorithm.{what}.runs_the_algorithm_once_and_draws_one_particle", len(runs) == 1 and len(draws) == 1,
+                  runs=len(runs), draws=len(draws))
+        E.cover(f"smc.sp_interface.{what}.reached")
+        run_key, draw_key = runs[0][1], draws[0][0]
+        from theory import keys as KY
+        E.prove(f"C04.SMCAlgorithm.{what}.the_run_and_the_particle_draw_use_independent_keys_derived_from_the_given_key", z3.And(
+            KY.independent(E.I, run_key, draw_key), KY.derived_from(E.I, run_key, k.t), KY.derived_from(E.I, draw_key, k.t)), also=["C26"])
+        if what == "estimate_logpdf":
+            E.prove("C26.SMCAlgorithm.estimate_logpdf.the_value_is_the_retained_particle", runs[0][0] == "csmc" and runs[0][2] == v.t)
+        # the re-targeted collection (ChangeTarget.run_smc / run_csmc: obligation C26.ChangeTarget.run_smc.reweights_...): particle i
+        # is the given target's importance on (its constraint | the old particle's choices the OLD target leaves unconstrained)
+        old_p = (lambda i: pf(run_key, i)) if what == "random_weighted" else (lambda i: cf(run_key, v.t, i))
+        old_w = (lambda i: wf_(run_key, i)) if what == "random_weighted" else (lambda i: cw(run_key, v.t, i))
+
+        def new_particle(i):
+            latents = T.chm_filter_sel(T.tr_choices(old_p(i)), T.sel_not(T.chm_sel(old_tgt.fields["constraint"].t)))
+            merged = T.chm_or(c.t, latents)
+            tr = T.gen_tr(g.t, split(run_key, K.t, i), merged, args.t)
+            return tr, SReal(T.cdens(tr, merged) - T.tr_score(old_p(i)) + old_w(i))
+        # logsumexp is external (an uninterpreted function of the weight vector): the vectors the real code applied it to are
+        # recorded, and must be - pointwise - the re-targeted weights (once for the draw, once for the evidence estimate)
+        E.require(f"C26.SMCAlgorithm.{what}.normalises_the_draw_and_estimates_the_evidence_from_a_weight_vector",
+                  len(lse_args) == 2 and all(isinstance(a_, Stacked) for a_ in lse_args), n=len(lse_args))
+        for nm, a_ in zip(("particle_draw", "evidence_estimate"), lse_args):
+            E.prove(f"C26.SMCAlgorithm.{what}.{nm}_uses_the_weights_of_the_retargeted_particles",
+                    E.And((a_.n if not isinstance(a_.n, int) else z3.IntVal(a_.n)) == K.t,
+                          forall_i(E, K.t, lambda i: E.eq(a_.at(i), new_particle(i)[1]))))
+        E.prove(f"C26.SMCAlgorithm.{what}.particle_is_drawn_with_probability_proportional_to_its_weight",
+                forall_i(E, K.t, lambda i: E.eq(draws[0][1].at(i), SReal(zreal_(lse_args[0].at(i)) - lse(E.I.to_u(lse_args[0]))))))
+        j = cat_idx(draw_key, E.I.to_u(draws[0][1]))
+        chosen = new_particle(j)[0]
+        lml = lse(E.I.to_u(lse_args[1])) - log(z3.ToReal(K.t))
+        lde = res[0] if what == "random_weighted" else res
+        E.prove(f"C26.SMCAlgorithm.{what}.density_estimate_is_particle_score_minus_log_evidence_estimate",
+                E.eq(lde, SReal(T.tr_score(chosen) - lml)))
+        if what == "random_weighted":
+            E.prove("C26.SMCAlgorithm.random_weighted.returns_exactly_the_choices_the_given_target_leaves_unconstrained",
+                    E.eq(res[1], UVal(T.chm_filter_sel(T.tr_choices(chosen), T.sel_not(T.chm_sel(c.t))), "ChoiceMap")))
+    E.refutable("smc.sp_interface", E.eq(lde, 0.0))
+
+
+def zreal_(v):
+    from pyvc.interp_ops import zreal
+    return zreal(v)
